@@ -257,7 +257,7 @@ func (s *Syncer[H]) findTailHeight(ctx context.Context, oldTail, head H) (uint64
 	)
 
 	newTailHeight := estimatedTailHeight
-	for newTailHeight > oldTail.Height() && newTailHeight <= s.store.Height() {
+	for newTailHeight > oldTail.Height() && newTailHeight-1 <= s.store.Height() {
 		// the estimate counts one header per blockTime, which is the upper bound of the block time:
 		// with faster blocks it lies above the first header of the window, so walk down to it
 		prev, err := s.store.GetByHeight(ctx, newTailHeight-1)
